@@ -83,6 +83,8 @@ func H_C14_iter() {
 		var i, op int
 		if step == 0 && rt.Param(1) >= 0 {
 			i, op = rt.Param(1), rt.Param(2) // shard: first operation fixed by the job
+		} else if step == 1 && rt.Param(5) >= 0 {
+			i, op = rt.Param(5), rt.Choice(5) // shard: iterator of the second operation fixed by the job
 		} else {
 			i, op = rt.Choice(2), rt.Choice(5)
 		}
